@@ -139,6 +139,15 @@ def gen_x(rng, n):
     r = rng.random()
     if r < 0.06:
         return [float(i) for i in range(n)], "implied"
+    if r < 0.16:
+        # exactly symmetric about 0: sums of odd functions vanish, so do
+        # the cross sums of an even with an odd basis function
+        half = [rng.choice((float(rng.randrange(1, 60)),
+                            rng.uniform(0.1, 90.0)))
+                for _ in range(n // 2)]
+        xs = [v for h in half for v in (h, -h)] + ([0.0] if n % 2 else [])
+        rng.shuffle(xs)
+        return xs, "symmetric"
     if r < 0.35:
         return [rng.uniform(-1e3, 1e3) for _ in range(n)], "spread"
     if r < 0.55:
@@ -166,7 +175,11 @@ def gen_case(rng):
     names = rng.choice((["x", "1"], ["x2", "x", "1"], ["x2", "x", "1"],
                         ["sin1", "sin2", "sin3"], ["sin1", "cos1", "1"],
                         ["exp", "x", "1"], ["sin1"], ["x"],
-                        ["cos1", "x"], ["x2", "1"]))
+                        ["cos1", "x"], ["x2", "1"],
+                        # basis functions of mixed parity in every position
+                        ["x2", "1", "x"], ["1", "cos1", "sin1"],
+                        ["sin1", "sin2", "1"], ["x", "1", "x2"],
+                        ["1", "x", "cos1"], ["sin1", "x2", "x"]))
     co = [rng.choice((1.0, -2.0, 3.5, 0.39, -0.77, 1.2, 7.0,
                       rng.uniform(-10, 10))) for _ in names]
     noise = rng.choice((0.0, 0.0, 0.01, 1.0, 10.0))
@@ -583,6 +596,9 @@ def run(mon, spec):
         pseed = rng.randrange(1 << 30)
         mon.begin("fit", [xs, ys, names, pseed])
         case_fit(mon, xs, ys, names, pseed)
+        if xkind == "symmetric":
+            mon.cls("abscissae-symmetric-about-0", ("sym", pseed),
+                    [xs[:6], names])
         # correlation
         r = rng.random()
         ys2 = list(ys)
